@@ -125,6 +125,66 @@ def check_params(sc, params, solve):
     return findings, known, stats
 
 
+OVERWRITE_PAIRS = [
+    # (first call, second call): both are accepted and are written to the SAME file name (names carry whole percentages only);
+    # the first text is longer than the second
+    (dict(seed=3, width=2, length=2, rb=0.1234567, lb=0.3141592, tb=0.1, lt=0.3, max_reward=6, force_down=False),
+     dict(seed=3, width=2, length=2, rb=0.12, lb=0.31, tb=0.1, lt=0.3, max_reward=6, force_down=False)),
+    (dict(seed=5, width=3, length=1, rb=0.1, lb=0.1, tb=0.2049999, lt=0.3, max_reward=6, force_down=True),
+     dict(seed=5, width=3, length=1, rb=0.1, lb=0.1, tb=0.2, lt=0.3, max_reward=6, force_down=True)),
+]
+
+
+def overwrite_findings():
+    """history leg: a second accepted parameter set written over an existing file of the same name must leave exactly its own games"""
+    out = []
+    n = 0
+    for first, second in OVERWRITE_PAIRS:
+        with gen.Scratch() as sc:
+            e = gen.run_main(**second)
+            ref = open(os.path.join("inputs", sc.files()[0])).read() if e is None and len(sc.files()) == 1 else None
+        with gen.Scratch() as sc:
+            e1 = gen.run_main(**first)
+            e2 = gen.run_main(**second)
+            n += 2
+            files = sc.files()
+            why = None
+            if e1 is not None or e2 is not None or len(files) != 1:
+                why = "calls raised %r / %r and left %r" % (e1, e2, files)
+            else:
+                text = open(os.path.join("inputs", files[0])).read()
+                try:
+                    d = CR.read_dict_from_file(os.path.join("inputs", files[0]))
+                    why = structural(d)
+                except Exception as ex:                      # noqa: BLE001
+                    why = "the reader fails on the rewritten file: %s: %s" % (type(ex).__name__, ex)
+                if why is None and ref is not None and text != ref:
+                    why = "the rewritten file differs from what the second parameter set writes into an empty directory"
+            if why:
+                out.append(mk("C11/overwrite", {"first": first, "second": second}, why, "the second set's file",
+                              "generating %r and then %r into the same directory: %s" % (first, second, why), False, "overwrite"))
+    # manual entry: same shape, different content
+    with gen.Scratch() as sc:
+        try:
+            SG.create_sg_from_board([[1, 1, 1], [1, 1, 1]], [[2, 0, 1], [0, 2, 1]], [[1, 1, 1], [1, 1, 1]], 0.1, 0.05, 0.25)
+            SG.create_sg_from_board([[3, 3, 3], [3, 3, 3]], [[2, 0, 0], [0, 0, 0]], [[0, 0, 0], [0, 0, 0]], 0.1, 0.05, 0.25)
+            n += 2
+            bad = []
+            for f in sc.files():
+                try:
+                    w = structural(CR.read_dict_from_file(os.path.join("inputs", f)))
+                except Exception as ex:                      # noqa: BLE001
+                    w = "the reader fails: %s: %s" % (type(ex).__name__, ex)
+                if w:
+                    bad.append("%s: %s" % (f, w))
+            if bad:
+                out.append(mk("C11/overwrite", {"manual": "two boards of the same shape"}, bad[0], None,
+                              "two manual boards written one after the other: %s" % bad[0], False, "overwrite"))
+        except Exception as ex:                              # noqa: BLE001
+            out.append(mk("C11/overwrite", {"manual": "two boards of the same shape"}, repr(ex), None, "manual entry failed: %r" % (ex,), False, "overwrite"))
+    return out, n
+
+
 def mk(klass, params, obs, exp, expl, solve=True, entry="cli"):
     return {"kind": "params", "klass": klass, "input": {"entry": entry, "params": params}, "config": {"solve": solve},
             "observed": obs, "expected": exp, "explanation": expl}
@@ -227,7 +287,7 @@ def param_sets(ctx):
                             if key not in seen:
                                 seen.add(key)
                                 out.append((p, solve))
-    big = [(1, 200), (200, 3), (20, 10)] if thorough else [(1, 60), (40, 2)]
+    big = [(1, 200), (200, 3), (20, 10)] if thorough else [(1, 110), (55, 2)]        # game C has more than 1024 states from 103 tiles on
     for (w, l) in big:
         for fd in (False, True):
             out.append((dict(BASE, seed=1, width=w, length=l, max_reward=6, force_down=fd), False))
@@ -261,11 +321,14 @@ def run(ctx):
     known = tot.get("known", {})
     for kid, d in known.items():
         d["what"] = KF.get(kid, "")
+    ow, n_ow = overwrite_findings()
+    tot.setdefault("violations", []).extend(ow)
+    tot["files"] += n_ow
     if not tot.get("violations") and tot["entries_solved"] < 100:
         raise par.HarnessError("C11 vacuity guard: %d entries solved" % tot["entries_solved"])
     cov = {"states": tot["files"], "transitions": tot["files"] + tot["entries_solved"], "traces_validated_against_impl": tot["files"],
            "evaluations": tot["files"], "distinct_nontrivial": tot["nontrivial"], "cli_parameter_sets": len(sets),
-           "files_structural_only": tot["structural_only"], "game_entries_solved_by_batch_runner": tot["entries_solved"],
+           "files_structural_only": tot["structural_only"], "overwrite_history_calls": n_ow, "game_entries_solved_by_batch_runner": tot["entries_solved"],
            "slowest_legitimate_batch_entry_s": round(tot["max_legit_seconds"], 2),
            "rule": RULE, "exhaustive": not tot.get("skipped_shards"), "samples": tot["samples"][:4]}
     return {"coverage": cov, "violations": tot["violations"], "known": known, "assumptions": ASSUME}
@@ -273,6 +336,9 @@ def run(ctx):
 
 def replay(case):
     i = case["input"]
+    if i["entry"] == "overwrite":
+        f, _ = overwrite_findings()
+        return f[0]["explanation"] if f else None
     with gen.Scratch() as sc:
         if i["entry"] == "manual":
             p = i["params"]
